@@ -59,6 +59,7 @@ def run(chk):
 
     hunt2_rules(chk, repo)
     hunt3_rules(chk, repo)
+    hunt4_rules(chk, repo)
     # ---- C06.eofdone (shared with C02) ------------------------------------------------------------------
     eof_at_completion(chk, repo)
 
@@ -386,8 +387,14 @@ def hunt3_rules(chk, repo):
     else:
         awaits_ = [n for n in g.nodes if n.ast is not None and n.kind in ("stmt", "test", "for") and any(isinstance(a, ast.Await) for a in ast.walk(n.ast)) and not isinstance(n.ast, (ast.FunctionDef, ast.AsyncFunctionDef))]
         rets = [n for n in g.nodes if n.kind == "stmt" and isinstance(n.ast, ast.Return) and n.ast.value is not None and "Connection(" in norm.raw(n.ast.value)]
+        # no clear may be followed by a suspension before the connection is handed out: from every clear, a path to an await that then reaches the return
         p = g.find_path(clears, lambda n: n in rets, lambda n: False, EXPLICIT)
-        via = [n for n in (p or []) if n in awaits_]
+        via = []
+        for c_ in clears:
+            pa = g.find_path([c_], lambda n: n in awaits_ and not isinstance(n.ast, ast.Return), lambda n: n in rets, EXPLICIT)
+            if pa is not None and g.find_path([pa[-1]], lambda n: n in rets, lambda n: False, EXPLICIT) is not None:
+                via.append(pa[-1])
+                p = pa
         if p is not None and not via:
             # and the connection is looked at again after the last suspension
             recheck = [n for n in g.nodes if n.kind == "test" and "is_connected()" in norm.raw(n.ast)]
@@ -408,12 +415,38 @@ def hunt3_rules(chk, repo):
     off = [n for n in gs.nodes if n.kind == "stmt" and norm.raw(n.ast) == "protocol.idle = False"]
     if not wh:
         chk.analysis_error("C06.reacquire.window: `await writer.write_headers(...)` not found in ClientRequestBase._send")
-    elif on and off and gs.find_path([gs.entry], lambda n: n in wh, lambda n: n in on, EXPLICIT) is None and gs.find_path(on, lambda n: n in wh, lambda n: n in off, EXPLICIT) is not None \
-            and gs.find_path(wh, lambda n: n is gs.exit, lambda n: n in off, EXPLICIT) is None:
-        chk.ok("C06.reacquire.window", wh[0].ast, "_send(): the connection is marked idle while write_headers() awaits the on_request_headers_sent callbacks (nothing is on the wire yet) and un-marked before the body is written")
-    else:
-        chk.violation("C06.reacquire.window", wh[0].ast, K.short(wh[0].ast), "protocol.idle = True; await writer.write_headers(...); protocol.idle = False",
+    elif not on or gs.find_path([gs.entry], lambda n: n in wh, lambda n: n in on, EXPLICIT) is not None:
+        chk.violation("C06.reacquire.window", wh[0].ast, K.short(wh[0].ast), "protocol.idle = True before await writer.write_headers(...)",
                       "write_headers() awaits the on_request_headers_sent trace callbacks before a byte of the request is written; bytes received in that window are taken for this request's response")
+    else:
+        chk.ok("C06.reacquire.window", wh[0].ast, "_send(): the connection is marked idle before write_headers() awaits the on_request_headers_sent callbacks (nothing is on the wire yet)")
+        # write_headers() only buffers the head (it is coalesced with the first body chunk): the mark is cleared where the buffered head is
+        # handed to the transport, not when write_headers() returns
+        early = gs.find_path(wh, lambda n: n in off, lambda n: False, EXPLICIT) if off else None
+        HW = "aiohttp/http_writer.py"
+        sw = repo.cls(HW, "StreamWriter")
+        flushes = [(mn, a) for mn, m in sw.methods.items() for a in ast.walk(m.node) if isinstance(a, ast.Assign) and norm.raw(a) == "self._headers_written = True"]
+        told = [(mn, a) for mn, a in flushes if any(isinstance(c, ast.Call) and norm.raw(c.func) == "self._on_head_written" for st_ in (PC._block_of(a) or []) for c in ast.walk(st_))]
+        makers = [c for q_ in ("ClientRequestBase._create_writer", "ClientRequest._create_writer") for c in prog.calls_in(repo.func(REQ, q_).node) if norm.raw(c.func) == "StreamWriter"]
+        wired = [c for c in makers if any(k.arg == "on_head_written" and "idle" in norm.raw(k.value) and "False" in norm.raw(k.value) for k in c.keywords)]
+        if early is not None:
+            chk.violation("C06.reacquire.window", off[0].ast, K.short(off[0].ast), "cleared by the writer when the head is handed to the transport (on_head_written)",
+                          "_send() clears the idle mark as soon as write_headers() returns, but the head is only buffered until the first body chunk is ready: with a body producer that awaits first (async generator, on_request_chunk_sent callback, file read) a response pushed by the peer meanwhile is delivered as the answer to a request of which not a byte was sent",
+                          path=gs.fmt_path(early))
+        elif flushes and len(told) == len(flushes) and makers and len(wired) == len(makers):
+            chk.ok("C06.reacquire.window", told[0][1], f"the idle mark is cleared by the writer at each of the {len(flushes)} places that hand the buffered head to the transport (both request writers pass the callback)")
+        else:
+            missing = [f"StreamWriter.{mn}" for mn, a in flushes if (mn, a) not in told] + [f"{K.short(c, 40)} without on_head_written" for c in makers if c not in wired]
+            chk.violation("C06.reacquire.window", sw, "self._headers_written = True", "self._on_head_written() at every flush of the buffered head; on_head_written=<clear protocol.idle> in both _create_writer()",
+                          "the idle mark set by _send() is never cleared on some path that writes the request head (" + "; ".join(missing or ["no flush site found"]) + "): the watch would close a connection whose request is on the wire, or the mark is cleared before the head is written")
+        chk.expect_count("C06.reacquire.window", len(flushes), 4, "places where StreamWriter hands the buffered head to the transport")
+
+
+def hunt4_rules(chk, repo):
+    """Rule written after the fourth defect hunt (F218): the response parser's sibling of C01.te10."""
+    from rules import C01
+    C01.te10_rule(chk, repo.func("aiohttp/http_parser.py", "HttpResponseParser.parse_message"), "C06.te10", "response",
+                  "the client pools a connection after an `HTTP/1.0 200` with `Connection: keep-alive` and `Transfer-Encoding: chunked`: an HTTP/1.0 relay that framed the message by close sends the rest of it as the answer to the next request on that connection (the request parser closes in the same situation)")
 
 
 def hunt2_rules(chk, repo):
